@@ -40,6 +40,9 @@ pub struct Case {
     /// honest rotations by the newest set made right after construction (a limit may only be met after accumulation)
     #[serde(default)]
     pub warmup_rotations: u8,
+    /// entry-point sweep case (see sweep.rs); the other fields are ignored
+    #[serde(default)]
+    pub sweep: Option<crate::sweep::SweepCase>,
 }
 
 fn step() -> impl Strategy<Value = Step> {
@@ -60,12 +63,22 @@ impl Property for C08 {
     }
     fn strategy(&self, tier: Tier) -> BoxedStrategy<Case> {
         let n = tier.pick(9usize, 14usize);
-        (prop_oneof![2 => 0u8..10, 1 => 10u8..18, 1 => 18u8..36], proptest::collection::vec(setgen(3), 1..5), proptest::collection::vec(step(), 0..=n), prop_oneof![6 => Just(0u8), 1 => 1u8..70])
-            .prop_map(|(retention, initial, steps, warmup_rotations)| Case { retention, initial, steps, warmup_rotations })
-            .boxed()
+        let direct = (prop_oneof![2 => 0u8..10, 1 => 10u8..18, 1 => 18u8..36], proptest::collection::vec(setgen(3), 1..5), proptest::collection::vec(step(), 0..=n), prop_oneof![6 => Just(0u8), 1 => 1u8..70])
+            .prop_map(|(retention, initial, steps, warmup_rotations)| Case { retention, initial, steps, warmup_rotations, sweep: None });
+        let direct = direct.boxed();
+        match crate::sweep::strategy(crate::sweep::Rule::Proofless) {
+            Some(sw) => crate::prop_oneof![9 => direct, 1 => sw.prop_map(|s| Case { retention: 0, initial: vec![], steps: vec![], warmup_rotations: 0, sweep: Some(s) })].boxed(),
+            None => direct,
+        }
+    }
+    fn fixed_cases(&self, _tier: Tier) -> Vec<Case> {
+        crate::sweep::fixed_cases(300).into_iter().map(|s| Case { retention: 0, initial: vec![], steps: vec![], warmup_rotations: 0, sweep: Some(s) }).collect()
     }
 
     fn run(&self, case: &Case, cx: &mut Cx) -> Result<(), String> {
+        if let Some(sw) = &case.sweep {
+            return crate::sweep::run(sw, cx, crate::sweep::Rule::Proofless);
+        }
         let env = new_env();
         let retention = RETENTIONS[case.retention as usize % RETENTIONS.len()];
         let mut installed: Vec<BuiltSet> = case.initial.iter().enumerate().map(|(i, g)| g.build(i as u8)).collect();
